@@ -3,6 +3,9 @@
  *   add  as an bs bn         -> "add <sec> <nsec>"          (myth_timespec_add of the current tree)
  *   gt   as an bs bn         -> "gt <0|1>"
  *   nsleep  rs rn  K c0s c0n ... -> "ret <code> reads <r> yields <y>"   myth_nanosleep under a scripted clock
+ *   nsleepr M rs rn ps pn K c..  -> "ret <code> reads <r> yields <y> rem <s> <n> req <s> <n>"  myth_nanosleep(req, rem) with
+ *                                   M = 0: rem = NULL ("rem none"), 1: rem = a separate object holding (ps, pn) before the call,
+ *                                   2: rem = req (the same object; ps pn ignored).  After the call the contents of *rem and *req.
  *   usleep  usec   K clock...    -> same, through myth_usleep
  *   sleep   s      K clock...    -> same, through myth_sleep
  *   tlock   ds dn  F  K clock...  -> myth_mutex_timedlock; the mutex is free from attempt F on (F<0: never)
@@ -116,6 +119,22 @@ int main(void) {
       else ret = (int)myth_sleep((unsigned int)rs);
       g_myth_verif_clock = 0;
       printf("ret %d reads %d yields %ld\n", ret, n_reads, n_yields);
+    } else if (!strcmp(op, "nsleepr")) {
+      long mode, rs, rn, ps, pn; int ret;
+      /* the two objects live in one array so that neither is a compiler temporary; volatile reads afterwards */
+      static struct timespec cell[2];
+      struct timespec * rem;
+      if (scanf("%ld %ld %ld %ld %ld", &mode, &rs, &rn, &ps, &pn) != 5) return 2;
+      if (read_clock()) return 2;
+      cell[0].tv_sec = rs; cell[0].tv_nsec = rn; cell[1].tv_sec = ps; cell[1].tv_nsec = pn;
+      rem = mode == 0 ? 0 : mode == 1 ? &cell[1] : &cell[0];
+      g_myth_verif_clock = vclock;
+      ret = myth_nanosleep(&cell[0], rem);
+      g_myth_verif_clock = 0;
+      printf("ret %d reads %d yields %ld", ret, n_reads, n_yields);
+      if (rem) printf(" rem %ld %ld", (long)((volatile struct timespec *)rem)->tv_sec, (long)((volatile struct timespec *)rem)->tv_nsec);
+      else printf(" rem none");
+      printf(" req %ld %ld\n", (long)((volatile struct timespec *)&cell[0])->tv_sec, (long)((volatile struct timespec *)&cell[0])->tv_nsec);
     } else if (!strcmp(op, "tlock") || !strcmp(op, "tjoin")) {
       long ds, dn, F; int ret; struct timespec d; myth_thread_t h = 0; void * res = 0;
       if (scanf("%ld %ld %ld", &ds, &dn, &F) != 3) return 2;
